@@ -272,7 +272,7 @@ func genC15(d *RunDesc, tier string) {
 			}
 			ops = append(ops, op)
 		case c < 96:
-			ops = append(ops, Op{K: "lkp", Fn: wl.intn(len(lookups)), SArg: pick(wl, lookupArgs), IArg: wl.intn(7), Lang: wl.intn(len(langs))})
+			ops = append(ops, Op{K: "lkp", Fn: wl.intn(nLookups()), SArg: pick(wl, lookupArgs), IArg: wl.intn(63), Lang: wl.intn(len(langs))})
 		default:
 			ops = append(ops, Op{K: "twin", Obj: &Ref{I: pick(wl, live)}, LB: wl.chance(1, 4)})
 		}
